@@ -84,7 +84,7 @@ class UnitResult:
 class Unit:
     def __init__(self, name, relpath, selector, setup, post=None, loops=None, nth=None,
                  contextmanager=False, drop=None, expect_min_obligations=1, prop=None,
-                 replay=None, on_yield=None, notes=''):
+                 replay=None, on_yield=None, notes='', local_types=None):
         self.name, self.relpath, self.selector = name, relpath, selector
         self.setup, self.post, self.loops, self.nth = setup, post, loops or {}, nth
         self.contextmanager, self.drop = contextmanager, drop
@@ -93,6 +93,7 @@ class Unit:
         self.replay = replay
         self.on_yield = on_yield
         self.notes = notes
+        self.local_types = local_types or {}
 
     def target(self):
         return f'{self.relpath}::{self.selector}' + (f'#{self.nth}' if self.nth is not None else '')
@@ -101,7 +102,7 @@ class Unit:
         """-> (obligations, info dict).  raises Unsupported when undecided."""
         node = source.select(self.relpath, self.selector, self.nth)
         interp = Interp(self.name, loops=self.loops, contextmanager=self.contextmanager,
-                        drop=self.drop)
+                        drop=self.drop, local_types=self.local_types)
         interp.on_yield = self.on_yield
         b = Builder(interp)
         b.node = node
